@@ -63,9 +63,17 @@ func addressLeaf(r *rand.Rand, key string) leaf {
 	return mkLeaf(op, key, gen.Pick(r, addrPatterns))
 }
 
+// noMetaIn: templates go through the same code; keep `$in` on metadata out of them while the
+// finding C20:metadata-in-never-matches is open.
+var noMetaIn = false // (fixed a07a144; templates still skip it: a `$in` list of variables is exercised on other fields)
+
 func metadataLeaf(r *rand.Rand) leaf {
 	if r.Intn(3) == 0 {
 		return mkLeaf("$exists", "metadata", gen.Pick(r, metaKeys))
+	}
+	if !noMetaIn && r.Intn(8) == 0 {
+		// `$in` on metadata[k]: documented meaning = membership
+		return mkLeaf("$in", "metadata["+gen.Pick(r, []string{"k", "tier", "role"})+"]", []any{gen.Pick(r, []string{"v", "gold", "a\"b"}), gen.Pick(r, []string{"w", "silver", "nope"})})
 	}
 	m := gen.Pick(r, metaPool[:6])
 	for k, v := range m {
@@ -113,6 +121,9 @@ func genLeaf(r *rand.Rand, res string, dates []int64, ntx int) leaf {
 			if r.Intn(3) == 0 {
 				return mkLeaf("$in", "reference", []any{gen.Pick(r, references), gen.Pick(r, references)})
 			}
+			if r.Intn(3) == 0 {
+				return mkLeaf("$like", "reference", gen.Pick(r, []string{"r%", "r_", "%", "ref%q\"", "%1", "r", "_é_", "%f"}))
+			}
 			return mkLeaf("$match", "reference", gen.Pick(r, references))
 		case 4, 5:
 			return mkLeaf(pickCmp(r), gen.Pick(r, []string{"timestamp", "inserted_at", "updated_at", "reverted_at"}), pickDate(r, dates))
@@ -147,6 +158,9 @@ func genLeaf(r *rand.Rand, res string, dates []int64, ntx int) leaf {
 			if r.Intn(3) == 0 {
 				// (before fix 127af08 this panicked in ConvertOperatorToSQL)
 				return mkLeaf("$in", "type", []any{gen.Pick(r, []string{"NEW_TRANSACTION", "DELETE_METADATA"}), "SET_METADATA"})
+			}
+			if r.Intn(3) == 0 {
+				return mkLeaf("$like", "type", gen.Pick(r, []string{"NEW%", "%METADATA", "%_TRANSACTION", "SET_METADATA", "%", "_EW%", "X%"}))
 			}
 			return mkLeaf("$match", "type", gen.Pick(r, []string{"NEW_TRANSACTION", "REVERTED_TRANSACTION", "SET_METADATA", "DELETE_METADATA", "INSERTED_SCHEMA"}))
 		}
@@ -207,6 +221,12 @@ func genFilter(c *gen.Ctx, res string, done []Step) json.RawMessage {
 	ntx := committedTxCount(done)
 	depth := r.Intn(5)
 	tree := genFilterTree(r, res, dates, ntx, depth)
+	if res == "accounts" && r.Intn(12) == 0 {
+		// the generic `balance` key on accounts (scalar subquery over the account's balance rows:
+		// SQLSTATE 21000 once an account holds two assets) — only as the whole filter, so that its
+		// evaluation does not depend on the order Postgres evaluates a boolean tree in
+		return rawJSON(mkLeaf(pickCmp(r), "balance", rawNum(gen.Pick(r, numPool))))
+	}
 	if r.Intn(25) == 0 {
 		tree = map[string]any{"$and": []any{tree, invalidLeaf(r, res)}}
 	}
